@@ -407,7 +407,7 @@ def pump(ci, c):
     results[ci] = got
 def send(ci, c, t):
     for s in range(nitems):
-        c.send(("R", ci, t, s, b"y" * ((s * 37) % 3000)))
+        c.send(("R", ci, t, s, b"y" * (120000 if s % 5 == 2 else (s * 37) % 3000)))
 ths = []
 backs = [channel.gateway.newchannel() for _ in range(nchan)]
 channel.send(backs)
@@ -458,7 +458,7 @@ def run_real(spec):
 
             def send(ci, t):
                 for s in range(nitems):
-                    subs[ci].send(("L", ci, t, s, b"x" * ((s * 41) % 3000)))
+                    subs[ci].send(("L", ci, t, s, b"x" * (150000 if s % 7 == 3 else (s * 41) % 3000)))
 
             ths = [threading.Thread(target=pump, args=(ci,), daemon=True) for ci in range(nchan)]
             sth = [threading.Thread(target=send, args=(ci, t), daemon=True) for ci in range(nchan) for t in range(nthreads)]
@@ -476,7 +476,8 @@ def run_real(spec):
             for ci in range(nchan):
                 for side, got in (("L", remote_got[ci]), ("R", got_local[ci])):
                     res.count("items_delivered", len(got or ()))
-                    pad = (lambda s: b"x" * ((s * 41) % 3000)) if side == "L" else (lambda s: b"y" * ((s * 37) % 3000))
+                    pad = ((lambda s: b"x" * (150000 if s % 7 == 3 else (s * 41) % 3000)) if side == "L"
+                           else (lambda s: b"y" * (120000 if s % 5 == 2 else (s * 37) % 3000)))
                     want = sorted((side, ci, t, s, pad(s)) for t in range(nthreads) for s in range(nitems))
                     if got is None or sorted(map(tuple, got)) != want:
                         res.violation(f"real-items-differ:{spec['spec']}", f"{label}: channel {ci} side {side}: {len(got or ())}/{len(want)}")
